@@ -566,6 +566,7 @@ func runC04(tier string, args []string) int {
 	}
 
 	c04concurrent(run)
+	c04sessions(run, cases, legsFailed)
 
 	// Python leg
 	pyCases := 0
